@@ -140,6 +140,20 @@ def scenario(draw) -> Dict[str, Any]:
         browsers = [{'host': hb, 'types': [services[k]['type']], 'at': max(0, t_reg - draw(st.integers(0, 2000))), 'qtype': None}] + browsers[:3]
         ops = [o for o in ops if o['op'] != 'cancel_browser']
         restart = True
+    elif draw(st.integers(0, 5)) == 0:
+        # hasty withdrawal: a service registered through the legacy `ttl=` argument is withdrawn 0-440 ms after the registration
+        # call returned, while its three announcements are still going out (the application did not wait for them)
+        k = draw(st.integers(0, n_svc - 1))
+        t_reg = next(o['t'] for o in ops if o['op'] == 'register' and o['svc'] == k)
+        ops = [o for o in ops if not (o.get('svc') == k and o['op'] != 'register')]
+        ops = [o for o in ops if not (o['op'] == 'close_host' and o['t'] < t_reg + 20000)]
+        services[k]['ttl_arg'] = draw(st.sampled_from([1200, 3000, 4500]))
+        services[k]['no_await'] = True
+        ops.append({'t': t_reg + 350 + draw(st.integers(0, 440)), 'op': 'unregister', 'svc': k, 'what': 'port'})
+        hb = draw(st.integers(0, n_hosts - 1))
+        joins[hb] = 'start'
+        browsers = [{'host': hb, 'types': [services[k]['type']], 'at': max(0, t_reg - draw(st.integers(0, 2000))), 'qtype': None}] + browsers[:3]
+        ops = [o for o in ops if o['op'] != 'cancel_browser']
     elif draw(st.integers(0, 3)) == 0:
         # text (or port) flip-flop: changed and changed back 1.6-4 s later; a peer's cache then holds the first record again valid,
         # and the flushed one for up to 10 s more. A browser started on a long-present host inside that time looks the service up.
@@ -252,6 +266,8 @@ class Run:
                                                    'shared': case['host_addrs'][s['host']] if case.get('shared') else None}
                                                for i, s in enumerate(case['services'])}
         registering: Set[int] = set()
+        not_awaited: Dict[int, Any] = {}
+        self.hasty = False
         browsers: Dict[int, Any] = {}
         last_op_on_svc: Dict[int, float] = {}
 
@@ -278,7 +294,7 @@ class Run:
             for op in ops:
                 target = t0 + op['t'] / 1000.0
                 k = op.get('svc')
-                if k is not None and k in last_op_on_svc:
+                if k is not None and k in last_op_on_svc and not (k in not_awaited and op['op'] == 'unregister'):
                     target = max(target, last_op_on_svc[k] + 1.5)
                 if target > w.clock.t:
                     await asyncio.sleep(target - w.clock.t)
@@ -292,10 +308,17 @@ class Run:
                     d = desc_of(s, versions[k])
                     info = sim.make_service_info(d)
                     registering.add(k)
-                    task = await h.azc.async_register_service(info)
+                    if s.get('ttl_arg'):
+                        task = await h.azc.async_register_service(info, ttl=s['ttl_arg'])
+                    else:
+                        task = await h.azc.async_register_service(info)
                     infos[k] = info
                     self.state_log.setdefault(k, []).append((w.clock.t, d))
-                    await task
+                    if s.get('no_await'):
+                        not_awaited[k] = task
+                        self.hasty = True
+                    else:
+                        await task
                     registering.discard(k)
                 elif kind == 'update':
                     if k not in infos:
@@ -335,6 +358,8 @@ class Run:
                             self.unregister_with_answer_queued_shared = True
                     task = await h.azc.async_unregister_service(info)
                     await task
+                    if k in not_awaited:
+                        await not_awaited.pop(k)
                 elif kind == 'close_host':
                     self.host_closed_at[hi] = w.clock.t
                     for kk, ss in enumerate(case['services']):
@@ -691,6 +716,8 @@ def check(case: Dict[str, Any]) -> Dict[str, Any]:
         classes.append('dropped-multicast')
     if base.in_flight_browser_start:
         classes.append('browser-started-during-registration')
+    if getattr(base, 'hasty', False):
+        classes.append('withdrawn-while-its-registration-announcements-were-going-out (ttl= argument)')
     if case.get('shared'):
         classes.append('shared-host-names')
     if getattr(base, 'unregister_with_answer_queued', False):
